@@ -37,11 +37,19 @@ def gen(rng, i, tier):
             eps = float(rng.choice([4 * np.spacing(abs(v) + 1e-300), abs(v) * 1e-9 + 1e-12, abs(v) * 3e-6 + 3e-9]))
             return float(v + eps * (1 if rng.random() < 0.5 else -1))
         lo, hi, wk = nudge(lo), nudge(hi), "near-points"
-    if lo is not None and int(((x >= lo) & (x <= hi)).sum()) < 2:
+    if wk != "absent" and rng.random() < 0.1 and len(x) > 3:
+        # a window that contains no grid point at all: strictly between two neighbours, or entirely beyond the data
+        k = int(rng.integers(0, len(x) - 1))
+        if rng.random() < 0.6:
+            lo, hi = float(x[k] + 0.3 * (x[k + 1] - x[k])), float(x[k] + 0.7 * (x[k + 1] - x[k]))
+        else:
+            lo, hi = float(x[-1] + 1.0), float(x[-1] + 2.0)
+        wk = "empty"
+    if lo is not None and wk != "empty" and int(((x >= lo) & (x <= hi)).sum()) < 2:
         lo, hi, wk = float(x[0]), float(x[-2]), "on-points"
     # one-sided windows: only xmin or only xmax given (the other side is the data range)
     side = "both"
-    if lo is not None and rng.random() < 0.35:
+    if lo is not None and wk != "empty" and rng.random() < 0.35:
         side = "xmax-only" if rng.random() < 0.5 else "xmin-only"
     return dict(x=tolist(x), y=tolist(y), dy=tolist(dy), xo=tolist(xo), lo=lo, hi=hi, wkind=wk,
                 lorch=bool(rng.random() < 0.4), omitted=bool(rng.random() < 0.3), pert=float(rng.normal() * 5), side=side)
@@ -82,6 +90,20 @@ def evaluate(case):
             fails.append(f"fourier_transform({side}): differs from transforming the pre-deleted data with the same window")
         return fails
     m = (x >= lo) & (x <= hi)
+    if case["wkind"] == "empty":
+        cx, cy, ce = tr.apply_cropping(x, y, lo, hi, dy=dy)
+        if len(cx) or len(cy) or len(ce):
+            fails.append(f"apply_cropping: a window [{lo!r}, {hi!r}] that contains no grid point returns {len(cx)} points instead of none")
+        return fails
+    # the cropping utility on abscissae that are not monotonic (two overlapping banks appended): still exactly the in-window points, in order
+    if len(x) > 4:
+        xb = np.concatenate([x[0::2], x[1::2]])
+        yb = np.concatenate([y[0::2], y[1::2]])
+        db = None if dy is None else np.concatenate([dy[0::2], dy[1::2]])
+        mb = (xb >= lo) & (xb <= hi)
+        bx, by, be = tr.apply_cropping(xb, yb, lo, hi, dy=db)
+        if not (np.array_equal(bx, xb[mb]) and np.array_equal(by, yb[mb]) and np.array_equal(be, (np.zeros_like(yb) if db is None else db)[mb])):
+            fails.append("apply_cropping: on non-monotonic abscissae (two banks appended) the result is not the in-window points in order")
     cx, cy, ce = tr.apply_cropping(x, y, lo, hi, dy=dy)
     if not (np.array_equal(cx, x[m]) and np.array_equal(cy, y[m]) and np.array_equal(ce, (np.zeros_like(y) if dy is None else dy)[m])):
         fails.append("apply_cropping: result is not the closed-interval selection of x, y, dy in order")
